@@ -2,6 +2,7 @@
 import glob
 import os
 import re
+import decisions
 
 from mirlib import AnchorMissing
 from helpers import aggregates, vexpr, field_accesses
@@ -530,3 +531,4 @@ def run(ctx):
     ctx.run_rule('C08.3c', 'T10', 'every field of every converted symbol comes from the part of the element it describes', r_field_sources, prog)
     ctx.run_rule('C08.4', 'T4', 'anonymous type ids', r_type_ids, prog)
     ctx.run_rule('C08.5', 'T5', 'every attribute kind is converted', r_attribute_kinds, prog)
+    ctx.run_rule('C08.2c', 'T2', 'only files without a module declaration are left out of the request', decisions.r_request_leaves_out_only_moduleless_files, prog)
